@@ -128,3 +128,64 @@ Theorem C15_merged_rejects_unhosted : forall s pks pk,
   In pk pks -> ns_route s pk = Rejected -> ns_route_all s pks = None.
 Proof. exact ns_route_all_rejects. Qed.
 Print Assumptions C15_merged_rejects_unhosted.
+
+(* (11) MGET is the one multi-key command the server does not split over the partitions: it is executed by the
+   partition of its first key, and only when that partition owns EVERY key; otherwise it is rejected. When it is
+   answered, the values are those of one store holding all the data — never "missing" for a key that exists in
+   another partition. *)
+Theorem C15_mget_served_by_owner : forall pnum ks p,
+  mget_route pnum ks = Some p -> ks <> [] /\ forall k, In k ks -> part_of (route_key k) pnum = p.
+Proof. exact mget_route_owner. Qed.
+Print Assumptions C15_mget_served_by_owner.
+
+Theorem C15_mget_rejected_iff : forall pnum ks,
+  mget_route pnum ks = None <->
+  ks = [] \/ exists k0 r k, ks = k0 :: r /\ In k r /\ part_of (route_key k) pnum <> part_of (route_key k0) pnum.
+Proof. exact mget_route_none. Qed.
+Print Assumptions C15_mget_rejected_iff.
+
+Theorem C15_mget_as_one_store : forall pnum ks s vs,
+  mget_reply pnum ks s = Some vs -> vs = map (fun k => kv_get k s) ks.
+Proof. exact mget_reply_single_store. Qed.
+Print Assumptions C15_mget_as_one_store.
+
+Example C15_ex_mget :
+  mget_reply 6 [[116;58;97]; [116;58;97]] [([116;58;97], [49])] = Some [Some [49]; Some [49]] /\
+  exists b, mget_reply 6 [[116;58;97]; b] [([116;58;97], [49]); (b, [50])] = None.
+Proof. split; [vm_compute; reflexivity|]. exists [116;58;98]. vm_compute. reflexivity. Qed.
+
+(* (12) a partition's part of a merged DEL / EXISTS fails when it names more than [lim] keys (MAX_BATCH_NUM); a
+   failed part fails the whole command. So the answer is the one-store count or an error, never the count of the
+   other parts alone. *)
+Theorem C15_merged_exists_count_or_error : forall lim pnum ks s c,
+  merged_exists_lim lim pnum ks s = Some c -> c = exists_keys ks s.
+Proof. exact merged_exists_lim_eq. Qed.
+Print Assumptions C15_merged_exists_count_or_error.
+
+Theorem C15_merged_del_count_or_error : forall lim pnum ks s c,
+  merged_del_lim lim pnum ks s = Some c -> c = fst (del_keys ks s).
+Proof. exact merged_del_lim_eq. Qed.
+Print Assumptions C15_merged_del_count_or_error.
+
+Theorem C15_merged_error_iff_part_over_limit : forall lim pnum ks s,
+  merged_exists_lim lim pnum ks s = None <->
+  exists p l, In (p, l) (group_keys pnum ks) /\ (lim < length l)%nat.
+Proof. exact merged_lim_error_iff. Qed.
+Print Assumptions C15_merged_error_iff_part_over_limit.
+
+Example C15_ex_limit :
+  merged_exists_lim 1 2 [[116;58;97]; [116;58;97]] [[116;58;97]] = None /\
+  merged_exists_lim 2 2 [[116;58;97]; [116;58;97]] [[116;58;97]] = Some 2.
+Proof. vm_compute. split; reflexivity. Qed.
+
+(* (13) the name under which a partition's replica group is registered (namespace ++ "-" ++ decimal index) is
+   injective: no two (namespace, partition) pairs share a group — also for namespaces whose names end in digits
+   or contain '-' ("vq1" partition 10 vs "vq11" partition 0). *)
+From ZV Require Import Part.NsName Part.NsNameProofs.
+Theorem C15_group_name_injective : forall ns ns' p p',
+  ns_desp ns p = ns_desp ns' p' -> ns = ns' /\ p = p'.
+Proof. exact ns_desp_inj. Qed.
+Print Assumptions C15_group_name_injective.
+
+Example C15_ex_group_names : ns_desp [118;113;49] 10 <> ns_desp [118;113;49;49] 0.
+Proof. vm_compute. discriminate. Qed.
